@@ -49,7 +49,6 @@ def apply_edit(repo, file, old, new, count=1):
 def run_check(prop, repo, tier="quick", seed=None, timeout=3600):
     env = dict(os.environ)
     env["VERIF_REPO"] = repo
-    env["NUMBA_CACHE_DIR"] = os.path.join(SCRATCH, "numba")
     if seed is not None:
         env["VERIF_SEED"] = str(seed)
     env["VERIF_EVIDENCE_DIR"] = os.path.join(SCRATCH, "evidence")
